@@ -691,3 +691,41 @@ func (c *Ctx) ConcurrentReaders(name string, rounds int, r *gen.Rand, build func
 		}
 	}
 }
+
+// Keeper holds on to objects the code under test handed out and looks at them
+// again after the process has made 1, 2, 63, 64, 65, ... 4095 further objects
+// of the kind: what an object reports must not depend on how many were made
+// after it (recycled storage, rings and pools with a fixed number of slots,
+// counters that wrap). A kept item is a closure that compares what the object
+// reports now with what it reported when it was new and returns "" if nothing
+// changed.
+type Keeper struct {
+	ring [4096]func() string
+	n    int
+}
+
+var keeperAges = []int{1, 2, 3, 15, 16, 17, 31, 32, 33, 63, 64, 65, 127, 128, 129, 255, 256, 257, 511, 512, 513, 1023, 1024, 1025, 2047, 2048, 2049, 4094, 4095}
+
+// Keep stores the item and re-examines the items kept 1 ... 4095 objects ago
+// (two of the listed ages per call, chosen by the case's generator; every age
+// is reached many times over a stream). A changed object is reported as
+// kept:<name>.
+func (k *Keeper) Keep(c *Ctx, name string, r *gen.Rand, still func() string) {
+	for j := 0; j < 2; j++ {
+		age := keeperAges[r.Intn(len(keeperAges))]
+		if age > k.n {
+			continue
+		}
+		if f := k.ring[(k.n-age)%len(k.ring)]; f != nil {
+			c.Count("kept." + name + ".looked_at_again")
+			if age >= 64 {
+				c.Count("kept." + name + ".looked_at_again_after_64_or_more_later_objects")
+			}
+			if msg := f(); msg != "" {
+				c.Fail("kept:"+name, fmt.Sprintf("%s, looked at again after %d more had been made in the process: %s", name, age, msg), map[string]interface{}{"age": age, "what": msg})
+			}
+		}
+	}
+	k.ring[k.n%len(k.ring)] = still
+	k.n++
+}
